@@ -149,6 +149,9 @@ func (c *Authority) VerifyTimeoutCert(tc hotstuff.TimeoutCert) error {
 	if tc.View() == 0 {
 		return nil
 	}
+	if tc.Signature() == nil {
+		return fmt.Errorf("timeout certificate has nil signature (view=%d)", tc.View())
+	}
 	quorumSize := c.config.QuorumSize()
 	participants := tc.Signature().Participants()
 	if participants.Len() < quorumSize {
